@@ -155,6 +155,9 @@ def make_plan(i, master, tier):
         case['conf'].append({'k': 'real', 'text': 'actor = source % atc'})
         case['act'] = {'lines': ['source line one', 'source line two']}
     plan['actor'] = actor
+    lay = kernel.stream(seed, 'layout')
+    if lay.random() < 0.4:
+        case['layout'] = casegen.random_layout(lay)
     return plan
 
 
@@ -191,8 +194,7 @@ def _place_slow(plan, fr):
 
 def execute(plan, scratch):
     w = world_mod.World(os.path.join(scratch, 'w'))
-    text = casegen.render_case(plan['case'], plan['status'])
-    w.write('home/t.case', text)
+    text = casegen.write_case(w, plan['case'], plan['status'])
     w.write('home/src.py', 'print(1)\n')
     sim = kernel.Sim(plan, w)
     with patches.installed(sim):
